@@ -214,7 +214,7 @@ def main(run):
 
     # 2b. TLS over TCP: real loopback sockets, real GnuTLS, oracle on the implementation alone
     tdrv = vlib.build_driver("h_tls_tcp", ["h_tls_tcp.c"], extra=["-D_GNU_SOURCE"],
-                             wraps=["coap_socket_write", "coap_socket_read", "gnutls_handshake"])
+                             wraps=["coap_socket_write", "gnutls_handshake"])
     tcases = gen_tls.gen_tcp_cases(tie.rng_for(run, "c19tcp"), run.tier)
     tlines = [gen_tls.tcp_line(c) for c in tcases]
     touts, tcr = vlib.run_lines_robust(tdrv, tlines, timeout=900)
